@@ -233,6 +233,29 @@ func scenSessMTU(r *Run) {
 		m1, m2 := drawMTU(t, ms, over), drawMTU(t, ms, over)
 		s.At(0, "setmtu", func() { setMTU(x.A, m1, func() { setMTU(x.B, m2, nil) }) })
 	}
+	// stream mode switched on (or off) in mid-transfer, with data queued: like
+	// SetMtu it changes how the next Write is laid onto the queued segments (a
+	// tape stream of its own: older tapes keep their meaning)
+	if midway && t.Chance("mtu-stream", 300) {
+		n := 1 + t.Choose("mtu-stream", 3)
+		at := time.Duration(0)
+		on := !o.CfgA.Stream
+		for i := 0; i < n; i++ {
+			at += time.Duration(t.Skewed("mtu-stream", 0, 1500000)) * time.Microsecond
+			v := on
+			on = !on
+			s.At(at+3, "setstream", func() {
+				if x.A == nil || x.A.CloseInvoked || ctl.Busy() {
+					return
+				}
+				st := x.A.StateLite()
+				s.L.Logf("call A SetStreamMode(%v) [queued=%d inflight=%d]", v, st.SndQueue, st.SndBuf)
+				s.Stats.Probe("setstreammode-midway")
+				sess := x.A.Sess
+				ctl.Do("SetStreamMode", func() any { sess.SetStreamMode(v); return nil }, func(any) {})
+			})
+		}
+	}
 	// OOB at the advertised maximum must fit the MTU as well
 	if fec && t.Chance(ms, 600) {
 		n := 1 + t.Choose(ms, 5)
